@@ -138,6 +138,7 @@ def make_harness(two_requests=True, kinds=KINDS, sizes=SIZES, statuses=STATUSES,
 
     def run(g, rig):
         sock = rig.new_sock()
+        half_closed = False
         configs = []
         n = 2 if two_requests else 1
         outs = []
@@ -148,7 +149,17 @@ def make_harness(two_requests=True, kinds=KINDS, sizes=SIZES, statuses=STATUSES,
             configs.append(c)
             rig.app.plan.append((c['kind'], c['size'], c['status'], c['stream']))
             before = len(rig.out(sock))
-            ok = rig.feed(sock, request_bytes(c, '/r%d' % i))
+            if partial_sends and i == 0 and g.flag('peer_half_closes_after_request'):
+                # the client shuts down its sending side right after the request, while the response is still in the
+                # server's write buffer: it must get the whole response before the connection goes away
+                half_closed = True
+                rig.pump = False
+                ok = rig.feed(sock, request_bytes(c, '/r%d' % i))
+                ok = rig.peer_disconnect(sock) and ok
+                rig.pump = True
+                ok = rig.settle() and ok
+            else:
+                ok = rig.feed(sock, request_bytes(c, '/r%d' % i))
             outs.append(rig.out(sock)[before:])
             st = rig.conn(sock)
             if not ok:
@@ -194,7 +205,7 @@ def make_harness(two_requests=True, kinds=KINDS, sizes=SIZES, statuses=STATUSES,
                 g.fail('head-content-length-wrong', w, detail)
             last = i == len(resps) - 1
             if last:
-                if r['will_close'] != st['closed']:
+                if r['will_close'] != st['closed'] and not (half_closed and st['closed']):
                     g.fail('close-mismatch', w, 'response says close=%s, connection closed=%s; %s' % (r['will_close'], st['closed'], detail))
             else:
                 if r['will_close']:
